@@ -194,7 +194,8 @@ class UniverseInput(CellModifierInput):
             f"UNIVERSE: in_cell: {self._in_cell_block}"
             f" set_in_block: {self.set_in_cell_block}, "
             f"Universe : {self._universe}, "
-            f"Old Numbers: {self._old_numbers}"
+            # the data-block input hands its numbers to the cells and then forgets them
+            f"Old Numbers: {getattr(self, '_old_numbers', None)}"
         )
         return ret
 
